@@ -5,17 +5,4 @@ NOTES = ("Every check = proof gate (full .vo build, pinned statements re-checked
          "property oracle on the implementation. Genuine defects found on the pinned tree were repaired by "
          "'fix:' commits in /repo and are listed as fixed in known_findings.json.")
 NOT_APPLICABLE = {}
-CLAIMED = {
- "C01": {
-  "text": "Unbounded theorems (all specs, all histories, all names/weights, generic name type) about the spec-level "
-          "mutation ladder: error => graph unchanged, only the three error kinds, self-loop / missing-node / duplicate "
-          "policies sentence by sentence, source-first creation, either orientation when undirected, re-add keeps "
-          "position and replaces attributes, batch add applies exactly the prefix before the first failing edge, "
-          "never panics. The spec and the faithful twelve-field model are tied to the code by a per-call "
-          "correspondence (outcome, node list, edge multiset, all private indexes via the hook).",
-  "note": "Trusted: Coq kernel + vm_compute; harness/printers/diff; the refinement twelve-field-model -> spec is "
-          "validated per generated history (flag kind 5), its unbounded proof is in progress (DESIGN.md 6/C01). "
-          "Axioms: none (Closed under the global context).",
-  "technique": "Coq proof (induction over op lists) + differential correspondence vs vm_compute model",
- },
-}
+CLAIMED = {}
